@@ -220,7 +220,8 @@ def gen_world(rng):
               if re.search(r"(?:^|[ ,])" + re.escape(a) + r"(?:,|$)", text)]
         if tw and rng.random() < 0.45:
             a, b = rng.choice(tw)
-            twin = text.replace(a, b, 1)
+            # replace the operand that matched as a whole (not `(%rax)` inside `8(%rax)`)
+            twin = re.sub(r"(^|[ ,])" + re.escape(a) + r"(?=,|$)", lambda mo: mo.group(1) + b, text, count=1)
             if rng.random() < 0.5:
                 lines.append(twin)
             else:
